@@ -321,6 +321,10 @@ fn classify(msg: &str) -> (String, Option<i64>) {
 fn panic_site(p: &PanicInfo) -> (String, String) {
     let text = source_line_text(&p.file, p.line);
     let f = p.file.rsplit('/').next().unwrap_or("").to_string();
+    if p.file.ends_with("str/mod.rs") && p.msg.contains("is not a char boundary") {
+        // str::split_at called by nom's `take_split` (no #[track_caller]: located in core)
+        return ("tagSplit".into(), "panic nom tag_no_case take_split: byte index is not a char boundary".into());
+    }
     let site = if text.contains("unimplemented!(\"No other dec types supported\")") {
         "decTypeFrom".to_string()
     } else if f == "traits.rs" && text.contains("self.split_at(count)") {
@@ -868,6 +872,9 @@ fn structural_mutant(rng: &mut Rng, t: &Tree) -> Option<(&'static str, String)> 
 // ------------------------------------------------------------------------------------------
 
 struct Cx<'a> {
+    /// recorded failures per ident (at most two each, so that frequent known ones cannot crowd
+    /// a rare new one out of the bounded failure list)
+    seen: HashMap<String, u32>,
     out: &'a mut Out,
     files: Files,
     /// oracle for `parse` lines that follow a `render`: the tree they must mean
@@ -875,6 +882,19 @@ struct Cx<'a> {
     /// `Some(label)`: the next `parse` must be rejected
     must_reject: Option<String>,
     no_panic_oracle: bool,
+}
+
+impl<'a> Cx<'a> {
+    fn fail(&mut self, what: &str, ident: &str) {
+        let n = self.seen.entry(ident.to_string()).or_insert(0);
+        *n += 1;
+        if *n <= 2 {
+            self.out.fail(what, ident);
+        } else {
+            self.out.count("oracle_failures");
+            self.out.count("oracle_failures_not_listed");
+        }
+    }
 }
 
 fn exec_parse(cx: &mut Cx, op: &str, hexs: &str) {
@@ -886,13 +906,13 @@ fn exec_parse(cx: &mut Cx, op: &str, hexs: &str) {
         Outcome::Err(k, _, msg) => {
             cx.out.count(&format!("err.{}", k));
             if k == "unclassified" || k == "nom-other" || k == "argsFail" {
-                cx.out.fail(&format!("error message not classified (harness): {:?}", msg), "harness unclassified-error");
+                cx.fail(&format!("error message not classified (harness): {:?}", msg), "harness unclassified-error");
             }
         }
         Outcome::Panic(site, ident, msg) => {
             cx.out.count(&format!("panic.{}", site));
             if cx.no_panic_oracle {
-                cx.out.fail(&format!("core_parser panicked on a text: {} ({}); text {:?}", ident, msg.chars().take(120).collect::<String>(), text.chars().take(200).collect::<String>()), ident);
+                cx.fail(&format!("core_parser panicked on a text: {} ({}); text {:?}", ident, msg.chars().take(120).collect::<String>(), text.chars().take(200).collect::<String>()), ident);
             }
         }
         Outcome::Ok(..) => {}
@@ -907,12 +927,12 @@ fn exec_parse(cx: &mut Cx, op: &str, hexs: &str) {
                 (0, c) => format!("roundtrip rejected {}", c),
                 (a, _) => format!("value-altered {}", ["", "cr", "four-spaces", "four-spaces+cr"][a as usize]),
             };
-            cx.out.fail(&format!("a well-formed description does not parse back to itself: expected `{}` got `{}`", trunc(&want, 300), trunc(&o.line(), 300)), &ident);
+            cx.fail(&format!("a well-formed description does not parse back to itself: expected `{}` got `{}`", trunc(&want, 300), trunc(&o.line(), 300)), &ident);
         }
     }
     if let Some(label) = cx.must_reject.take() {
         if !matches!(o, Outcome::Err(..)) {
-            cx.out.fail(&format!("a description with a structural error ({}) was not rejected with an error: {} ; text {:?}", label, trunc(&o.line(), 200), trunc(&text, 400)), &format!("not-rejected {}", label));
+            cx.fail(&format!("a description with a structural error ({}) was not rejected with an error: {} ; text {:?}", label, trunc(&o.line(), 200), trunc(&text, 400)), &format!("not-rejected {}", label));
         }
     }
 }
@@ -1105,7 +1125,7 @@ fn fixed_texts() -> Vec<(&'static str, String)> {
 fn run_parse_like(args: &Args, c14: bool) {
     let mut out = Out::new(&args.out);
     let files = Files::new(&args.out);
-    let mut cx = Cx { out: &mut out, files, expect: None, must_reject: None, no_panic_oracle: true };
+    let mut cx = Cx { seen: HashMap::new(), out: &mut out, files, expect: None, must_reject: None, no_panic_oracle: true };
     if let Some(rp) = &args.replay {
         cx.out.begin_case(0);
         cx.out.mark_nontrivial();
@@ -1179,11 +1199,547 @@ pub fn run_c14_ndl(args: &Args) {
 }
 
 // ------------------------------------------------------------------------------------------
-// c19-run: see below
+// c19-run: generated *semantically* valid descriptions, really built and run
 // ------------------------------------------------------------------------------------------
 
+use elvis::applications::Capture;
+use elvis_core::ExitStatus;
+use std::time::Duration;
+
+/// fixed message length: a capture's concatenated bytes split back into messages
+const MSG_LEN: usize = 8;
+
+#[derive(Clone, Debug)]
+struct PlanNet {
+    id: String,
+    /// a.b.c.lo-hi
+    base: [u8; 3],
+    lo: u8,
+    hi: u8,
+    singles: Vec<[u8; 4]>,
+    as_subnet: bool,
+}
+
+#[derive(Clone, Debug)]
+enum Target {
+    Name(usize),
+    Addr(usize),
+}
+
+/// one semantically valid description plus what its author intends (the native oracle's side)
+struct Plan {
+    tree: Tree,
+    /// capturing machine name -> messages it must receive
+    intended: Vec<(String, Vec<String>)>,
+    pingpong: bool,
+    label: String,
+}
+
+fn ip_s(ip: [u8; 4]) -> String {
+    format!("{}.{}.{}.{}", ip[0], ip[1], ip[2], ip[3])
+}
+
+fn gen_plan(rng: &mut Rng, seed_tag: u64) -> Plan {
+    let o = |k: &str, v: &str| (k.to_string(), v.to_string());
+    // ---- networks ----
+    let n_nets = rng.range(1, 3) as usize;
+    let mut nets: Vec<PlanNet> = vec![];
+    let mut used_ids: Vec<String> = vec![];
+    for i in 0..n_nets {
+        let id = loop {
+            let c = rng.pick(&["1", "5", "3", "7", "net-a", "lan", "42", "backbone"]).to_string();
+            if !used_ids.contains(&c) {
+                break c;
+            }
+        };
+        used_ids.push(id.clone());
+        let lo = rng.range(1, 60) as u8;
+        let hi = lo + rng.range(12, 40) as u8;
+        let base = [*rng.pick(&[123u8, 12, 45, 77, 150]), 20 + i as u8, rng.range(0, 250) as u8];
+        let singles = (0..rng.range(0, 2)).map(|k| [base[0], base[1], base[2], 200 + k as u8]).collect();
+        nets.push(PlanNet { id, base, lo, hi, singles, as_subnet: false });
+    }
+    let mut tree = Tree::default();
+    for n in &nets {
+        let mut ips = vec![];
+        // the pool as one or two ranges
+        let mid = n.lo + (n.hi - n.lo) / 2;
+        if rng.chance(1, 2) {
+            ips.push(Leaf { dt: "IP".into(), opts: vec![o("range", &format!("{}.{}.{}.{}-{}", n.base[0], n.base[1], n.base[2], n.lo, n.hi))] });
+        } else {
+            ips.push(Leaf { dt: "IP".into(), opts: vec![o("range", &format!("{}.{}.{}.{}-{}", n.base[0], n.base[1], n.base[2], n.lo, mid))] });
+            ips.push(Leaf { dt: "IP".into(), opts: vec![o("range", &format!("{}.{}.{}.{}-{}", n.base[0], n.base[1], n.base[2], mid + 1, n.hi))] });
+        }
+        for s in &n.singles {
+            ips.push(Leaf { dt: "IP".into(), opts: vec![o("ip", &ip_s(*s))] });
+        }
+        let _ = n.as_subnet;
+        tree.nets.push(Net { opts: vec![o("id", &n.id)], ips });
+    }
+    // address pool per network, handed out once
+    let mut next_host: Vec<u8> = nets.iter().map(|n| n.lo).collect();
+    let mut take_ip = |net: usize| -> [u8; 4] {
+        let h = next_host[net];
+        next_host[net] += 1;
+        [nets[net].base[0], nets[net].base[1], nets[net].base[2], h]
+    };
+    // ---- protocols ----
+    let arp_mode = rng.below(4); // 0,1: none  2: explicit ARP everywhere  3: auto-protocol everywhere
+    let protocols = |rng: &mut Rng| -> (Vec<Leaf>, Option<(String, String)>) {
+        let p = |n: &str| Leaf { dt: "Protocol".into(), opts: vec![("name".to_string(), n.to_string())] };
+        match arp_mode {
+            2 => {
+                let mut v = vec![p("IPv4"), p("UDP"), p("ARP")];
+                let k = rng.below(3) as usize;
+                v.swap(0, k);
+                (v, None)
+            }
+            3 => (vec![p("UDP")], Some(("auto-protocol".to_string(), "true".to_string()))),
+            _ => {
+                if rng.chance(1, 2) {
+                    (vec![p("IPv4"), p("UDP")], None)
+                } else {
+                    (vec![p("UDP"), p("IPv4")], None)
+                }
+            }
+        }
+    };
+    let port_s = |rng: &mut Rng, p: u16| -> String {
+        if rng.chance(1, 2) {
+            format!("0x{:x}", p)
+        } else {
+            p.to_string()
+        }
+    };
+    let net_leaf = |id: &str| Leaf { dt: "Network".into(), opts: vec![("id".to_string(), id.to_string())] };
+
+    let pingpong = rng.chance(1, 6);
+    let mut intended: Vec<(String, Vec<String>)> = vec![];
+    let mut machs: Vec<Mach> = vec![];
+    let mut label = format!("nets={} arp={}", n_nets, arp_mode);
+    if pingpong {
+        let net = rng.below(n_nets as u64) as usize;
+        let (a, b) = (take_ip(net), take_ip(net));
+        let (pa, pb) = (rng.range(1024, 65000) as u16, rng.range(1024, 65000) as u16);
+        let by_name = rng.chance(1, 2);
+        for (k, (me, other, lp, rp, my_name, other_name)) in [(a, b, pa, pb, "ping", "pong"), (b, a, pb, pa, "pong", "ping")].iter().enumerate() {
+            let (prots, auto) = protocols(rng);
+            let mut mo = vec![o("name", my_name)];
+            if let Some(a) = auto {
+                mo.push(a);
+            }
+            let app = Leaf {
+                dt: "Application".into(),
+                opts: vec![
+                    o("name", "ping_pong"),
+                    o("starter", if k == 0 { *rng.pick(&["true", "t", "T", "True"]) } else { *rng.pick(&["false", "f", "no"]) }),
+                    o("ip", &ip_s(*me)),
+                    o("to", &if by_name { other_name.to_string() } else { ip_s(*other) }),
+                    o("local_port", &port_s(rng, *lp)),
+                    o("remote_port", &port_s(rng, *rp)),
+                ],
+            };
+            machs.push(Mach { opts: mo, nets: vec![net_leaf(&nets[net].id)], prots, apps: vec![app] });
+        }
+        label.push_str(" pingpong");
+    } else {
+        // receivers: captures and forwards; every receiver has (name, ip, port, nets)
+        struct Rx {
+            name: String,
+            ip: [u8; 4],
+            port: u16,
+            nets: Vec<usize>,
+            /// index of the receiver a forward passes its messages on to
+            fwd_to: Option<usize>,
+        }
+        let mut rxs: Vec<Rx> = vec![];
+        let n_caps = rng.range(1, 3) as usize;
+        for i in 0..n_caps {
+            let home = rng.below(n_nets as u64) as usize;
+            let mut ns = vec![home];
+            if n_nets > 1 && rng.chance(1, 3) {
+                let other = (home + 1 + rng.below(n_nets as u64 - 1) as usize) % n_nets;
+                if rng.chance(1, 2) {
+                    ns.push(other);
+                } else {
+                    ns.insert(0, other);
+                }
+            }
+            rxs.push(Rx { name: format!("recv{}", i + 1), ip: take_ip(home), port: rng.range(1024, 65000) as u16, nets: ns, fwd_to: None });
+        }
+        let n_fwd = if rng.chance(1, 2) { rng.range(1, 2) as usize } else { 0 };
+        let mut second_fwd = false;
+        for i in 0..n_fwd {
+            // a forward's first network must reach its target
+            let tgt = rng.below(rxs.len() as u64) as usize;
+            let first = *rng.pick(&rxs[tgt].nets);
+            let mut ns = vec![first];
+            if n_nets > 1 && rng.chance(1, 3) {
+                ns.push((first + 1) % n_nets);
+            }
+            let home = *rng.pick(&ns);
+            if arp_mode >= 2 && rxs[tgt].nets[0] != first {
+                second_fwd = true;
+            }
+            rxs.push(Rx { name: format!("fwd{}", i + 1), ip: take_ip(home), port: rng.range(1024, 65000) as u16, nets: ns, fwd_to: Some(tgt) });
+        }
+        // senders
+        let n_send = rng.range(1, 3) as usize;
+        let mut deliveries: Vec<Vec<String>> = vec![vec![]; rxs.len()];
+        let mut msg_no = 0u32;
+        let mut sender_machs: Vec<Mach> = vec![];
+        let mut twice = false;
+        let mut second = second_fwd;
+        for i in 0..n_send {
+            let count = if rng.chance(1, 2) { 1 } else { rng.range(2, 4) };
+            let first_net = rng.below(n_nets as u64) as usize;
+            let reachable: Vec<usize> = (0..rxs.len()).filter(|r| rxs[*r].nets.contains(&first_net)).collect();
+            if reachable.is_empty() {
+                continue;
+            }
+            let mut ns = vec![first_net];
+            if n_nets > 1 && rng.chance(1, 3) {
+                ns.push((first_net + 1) % n_nets);
+            }
+            // F-C19-3 probe: the network shared with the receiver is listed second
+            if n_nets > 1 && rng.chance(1, 40) {
+                let other = (first_net + 1) % n_nets;
+                if reachable.iter().any(|r| !rxs[*r].nets.contains(&other)) {
+                    ns = vec![other, first_net];
+                    second = true;
+                }
+            }
+            let mut apps = vec![];
+            // F-C19-2: a machine holds one protocol per Rust type, so of two applications of the
+            // same kind only the last one runs; generated rarely and labelled
+            let n_apps = if rng.chance(1, 40) { 2 } else { 1 };
+            if n_apps == 2 {
+                twice = true;
+            }
+            for _ in 0..n_apps {
+                let r = *rng.pick(&reachable);
+                if arp_mode >= 2 && rxs[r].nets[0] != first_net {
+                    // under ARP a machine answers on its first network only (same finding)
+                    second = true;
+                }
+                msg_no += 1;
+                let msg = format!("m{:03}-{:03}", seed_tag % 1000, msg_no % 1000);
+                assert_eq!(msg.len(), MSG_LEN);
+                let tgt = if rng.chance(1, 2) { Target::Name(r) } else { Target::Addr(r) };
+                let mut ao = vec![
+                    o("name", "send_message"),
+                    o("message", &msg),
+                    o("to", &match tgt {
+                        Target::Name(r) => rxs[r].name.clone(),
+                        Target::Addr(r) => ip_s(rxs[r].ip),
+                    }),
+                    o("port", &port_s(rng, rxs[r].port)),
+                ];
+                if count == 1 && rng.chance(1, 4) {
+                    ao.push(o("ip", &ip_s(take_ip(ns[0]))));
+                }
+                apps.push(Leaf { dt: "Application".into(), opts: ao });
+                // follow forwards to the capture
+                let mut at = r;
+                while let Some(nx) = rxs[at].fwd_to {
+                    at = nx;
+                }
+                for _ in 0..count {
+                    deliveries[at].push(msg.clone());
+                }
+            }
+            let (prots, auto) = protocols(rng);
+            let mut mo = vec![o("name", &format!("send{}", i + 1))];
+            if count > 1 || rng.chance(1, 3) {
+                mo.push(o("count", &count.to_string()));
+            }
+            if let Some(a) = auto {
+                mo.push(a);
+            }
+            sender_machs.push(Mach { opts: mo, nets: ns.iter().map(|n| net_leaf(&nets[*n].id)).collect(), prots, apps });
+        }
+        // a capture nobody sends to would wait forever: give it a sender of its own
+        for r in 0..n_caps {
+            if deliveries[r].is_empty() {
+                msg_no += 1;
+                let msg = format!("m{:03}-{:03}", seed_tag % 1000, msg_no % 1000);
+                let (prots, auto) = protocols(rng);
+                let mut mo = vec![o("name", &format!("extra{}", r + 1))];
+                if let Some(a) = auto {
+                    mo.push(a);
+                }
+                let first = if arp_mode >= 2 { rxs[r].nets[0] } else { rxs[r].nets[rng.below(rxs[r].nets.len() as u64) as usize] };
+                let ao = vec![o("name", "send_message"), o("message", &msg), o("to", &ip_s(rxs[r].ip)), o("port", &port_s(rng, rxs[r].port))];
+                sender_machs.push(Mach { opts: mo, nets: vec![net_leaf(&nets[first].id)], prots, apps: vec![Leaf { dt: "Application".into(), opts: ao }] });
+                deliveries[r].push(msg);
+            }
+        }
+        let factory = n_caps > 1 || rng.chance(1, 4);
+        let mut rx_machs: Vec<Mach> = vec![];
+        for (r, rx) in rxs.iter().enumerate() {
+            let (prots, auto) = protocols(rng);
+            let mut mo = vec![o("name", &rx.name)];
+            if let Some(a) = auto {
+                mo.push(a);
+            }
+            let app = match rx.fwd_to {
+                None => {
+                    let n = deliveries[r].len();
+                    let mut ao = vec![o("name", "capture"), o("ip", &ip_s(rx.ip)), o("port", &port_s(rng, rx.port))];
+                    if n != 1 || rng.chance(1, 2) {
+                        ao.push(o("type", "count"));
+                    }
+                    ao.push(o("message_count", &n.to_string()));
+                    if factory {
+                        ao.push(o("factory", "f1"));
+                    }
+                    intended.push((rx.name.clone(), deliveries[r].clone()));
+                    Leaf { dt: "Application".into(), opts: ao }
+                }
+                Some(t) => {
+                    let by_name = rng.chance(1, 2);
+                    Leaf {
+                        dt: "Application".into(),
+                        opts: vec![
+                            o("name", "forward"),
+                            o("ip", &ip_s(rx.ip)),
+                            o("to", &if by_name { rxs[t].name.clone() } else { ip_s(rxs[t].ip) }),
+                            o("local_port", &port_s(rng, rx.port)),
+                            o("remote_port", &port_s(rng, rxs[t].port)),
+                        ],
+                    }
+                }
+            };
+            rx_machs.push(Mach { opts: mo, nets: rx.nets.iter().map(|n| net_leaf(&nets[*n].id)).collect(), prots, apps: vec![app] });
+        }
+        // machine order: any interleaving of senders and receivers
+        machs = sender_machs;
+        for m in rx_machs {
+            let at = rng.below(machs.len() as u64 + 1) as usize;
+            machs.insert(at, m);
+        }
+        label.push_str(&format!(" caps={} fwd={} senders={}", n_caps, n_fwd, n_send));
+        if twice {
+            label.push_str(" same-kind-twice");
+        }
+        if second {
+            label.push_str(" shared-net-second");
+        }
+    }
+    // argument order within a line is arbitrary
+    for m in machs.iter_mut() {
+        for a in m.apps.iter_mut() {
+            for i in (1..a.opts.len()).rev() {
+                let j = rng.below(i as u64 + 1) as usize;
+                a.opts.swap(i, j);
+            }
+        }
+    }
+    tree.machs = machs;
+    Plan { tree, intended, pingpong, label }
+}
+
+fn status_name(s: &ExitStatus) -> String {
+    match s {
+        ExitStatus::Exited => "exited".into(),
+        ExitStatus::TimedOut => "timedout".into(),
+        ExitStatus::Status(n) => format!("status:{}", n),
+    }
+}
+
+/// parse (real `core_parser`), build (real generator) and run (real `run_internet`, paused
+/// clock) one description; returns the observed `expect …` line
+fn run_description(dir: &Path, tree: &Tree, lay: Layout) -> Result<String, String> {
+    std::fs::create_dir_all(dir).map_err(|e| e.to_string())?;
+    let path = dir.join(format!("run-{}.ndl", std::process::id()));
+    std::fs::write(&path, render(lay, tree)).map_err(|e| e.to_string())?;
+    let sim = core_parser(path.to_string_lossy().to_string()).map_err(|e| format!("parse error: {}", e))?;
+    // names of the machines in build order (count expands a machine)
+    let mut names: Vec<String> = vec![];
+    for m in &tree.machs {
+        let c: u64 = get(&m.opts, "count").and_then(|c| c.parse().ok()).unwrap_or(1);
+        for _ in 0..c {
+            names.push(get(&m.opts, "name").unwrap_or("").to_string());
+        }
+    }
+    let machines = elvis::ndl::verif_build_machines(sim);
+    if machines.len() != names.len() {
+        return Err(format!("generator built {} machines for {} described", machines.len(), names.len()));
+    }
+    let ms = machines.clone();
+    let status = block_on_mode(RtMode::Paused, async move { elvis_core::run_internet(&ms, Some(Duration::from_secs(5))).await });
+    let mut caps: Vec<(String, String)> = vec![];
+    for (m, name) in machines.iter().zip(names.iter()) {
+        if let Some(c) = m.protocol::<Capture>() {
+            let bytes = c.message().map(|m| m.to_vec()).unwrap_or_default();
+            let got = if bytes.is_empty() {
+                "none".to_string()
+            } else if bytes.len() % MSG_LEN != 0 {
+                format!("ragged:{}", hex(&bytes))
+            } else {
+                let mut ch: Vec<String> = bytes.chunks(MSG_LEN).map(hex).collect();
+                ch.sort();
+                ch.join(",")
+            };
+            caps.push((hx(name), got));
+        }
+    }
+    caps.sort();
+    let mut line = format!("expect {}", status_name(&status));
+    for (n, g) in caps {
+        line.push_str(&format!(" cap {} {}", n, g));
+    }
+    Ok(line)
+}
+
+fn intended_line(p: &Plan) -> String {
+    let mut caps: Vec<(String, String)> = p
+        .intended
+        .iter()
+        .map(|(n, ms)| {
+            let mut h: Vec<String> = ms.iter().map(|m| hx(m)).collect();
+            h.sort();
+            (hx(n), if h.is_empty() { "none".to_string() } else { h.join(",") })
+        })
+        .collect();
+    caps.sort();
+    let mut line = "expect exited".to_string();
+    for (n, g) in caps {
+        line.push_str(&format!(" cap {} {}", n, g));
+    }
+    line
+}
+
+const RULE_RUN: &str = "descriptions: 1..3 networks (range / single-ip entries), 1..3 capture machines (count type, shared factory when several), 0..2 forwards (chains), 1..3 sender machines with count 1..4 and 1..2 send_message applications wired by name or by address, or a ping_pong pair; IPv4+UDP in either order, optionally ARP everywhere (explicit or auto-protocol); second networks on some machines; rendered in a random layout, parsed by core_parser, built by the NDL generator, run by run_internet on a paused clock (5 s virtual timeout) in a worker process; non-trivial = a forward, a count > 1 or two captures; distinct = hash of the run line";
+
+fn run_one_case(spec: &str, dir: &Path) -> CaseReport {
+    let mut rep = CaseReport::default();
+    let (tree, intended, label, lay): (Tree, Option<String>, String, Layout);
+    if let Some(rest) = spec.strip_prefix("gen ") {
+        let mut it = rest.split_whitespace();
+        let id: u64 = it.next().and_then(|x| x.parse().ok()).unwrap_or(0);
+        let seed: u64 = it.next().and_then(|x| x.parse().ok()).unwrap_or(1);
+        let mut rng = Rng::new(seed);
+        let p = gen_plan(&mut rng, id);
+        lay = *rng.pick(&LAYOUTS);
+        intended = Some(intended_line(&p));
+        label = p.label.clone();
+        rep.nontrivial = label.contains("fwd=1") || label.contains("fwd=2") || p.tree.machs.iter().any(|m| get(&m.opts, "count").map_or(false, |c| c != "1")) || p.intended.len() > 1;
+        rep.count(format!("layout.{}", lay.name()));
+        rep.count(if p.pingpong { "kind.pingpong" } else { "kind.capture" });
+        for part in label.split(' ') {
+            rep.count(format!("plan.{}", part));
+        }
+        tree = p.tree;
+    } else if let Some(rest) = spec.strip_prefix("replay ") {
+        let w: Vec<&str> = rest.split_whitespace().collect();
+        match (w.first().copied(), Tree::from_tokens(w.get(1..).unwrap_or(&[]))) {
+            (Some("run"), Some(t)) => {
+                tree = t;
+                intended = None;
+                label = "replay".into();
+                lay = Layout::Tabs;
+                rep.nontrivial = true;
+            }
+            _ => {
+                rep.line(rest, "bad-op");
+                return rep;
+            }
+        }
+    } else {
+        rep.line(spec, "bad-op");
+        return rep;
+    }
+    // descriptions of the two recorded finding classes are judged by the native oracle only: the
+    // Lean spec says what should happen, the implementation is known to differ
+    let known_class = label.contains("same-kind-twice") || label.contains("shared-net-second");
+    let op = format!("{} {}", if known_class { "run-known" } else { "run" }, tree.tokens(false));
+    match run_description(dir, &tree, lay) {
+        Ok(observed) => {
+            rep.count(format!("status.{}", observed.split(' ').nth(1).unwrap_or("")));
+            if let Some(want) = intended {
+                if observed != want {
+                    let ident = if label.contains("same-kind-twice") {
+                        "same-kind-applications only-last-runs"
+                    } else if label.contains("shared-net-second") {
+                        "shared-network-listed-second not-delivered"
+                    } else if !observed.starts_with("expect exited") {
+                        "run-did-not-exit"
+                    } else {
+                        "delivery-mismatch"
+                    };
+                    rep.fail(format!("running a valid description ({}): intended `{}`, observed `{}`; description:\n{}", label, want, observed, render(Layout::Tabs, &tree)), ident);
+                }
+            } else if !observed.starts_with("expect exited") {
+                rep.fail(format!("replayed description did not end with the normal exit status: `{}`", observed), "run-did-not-exit");
+            }
+            rep.line(op, if known_class { "not-compared".to_string() } else { observed });
+        }
+        Err(e) => {
+            rep.fail(format!("a valid description ({}) could not be run: {}; description:\n{}", label, e, render(Layout::Tabs, &tree)), "run-setup-error");
+            rep.line(op, format!("error {}", e.chars().take(80).collect::<String>().replace(' ', "_").replace('\n', "_")));
+        }
+    }
+    rep
+}
+
 fn run_sims(args: &Args) {
-    let _ = (is_worker(args), default_workers());
-    eprintln!("hfull: c19-run not implemented yet");
-    std::process::exit(2);
+    let dir = args.out.join("ndl-tmp");
+    if is_worker(args) {
+        // the parent passes the scratch directory through the environment
+        let d = std::env::var("C19_TMP").map(PathBuf::from).unwrap_or_else(|_| std::env::temp_dir().join("c19-run"));
+        worker_loop(|spec| run_one_case(spec, &d));
+        return;
+    }
+    std::env::set_var("C19_TMP", &dir);
+    let mut out = Out::new(&args.out);
+    let specs: Vec<String> = if let Some(rp) = &args.replay {
+        read_ops(rp).into_iter().filter(|l| l.starts_with("run ") || l.starts_with("run-known ")).map(|l| format!("replay {}", l.replacen("run-known ", "run ", 1))).collect()
+    } else {
+        let mut rng = Rng::new(args.seed);
+        (0..args.cases).map(|c| format!("gen {} {}", c, rng.next())).collect()
+    };
+    let mut seen: HashMap<String, u32> = HashMap::new();
+    for (c, o) in run_cases(&args.prop, &specs, default_workers(), 20, 90).iter().enumerate() {
+        out.begin_case(c as u64);
+        match o {
+            CaseOutcome::Done(rep) => {
+                // at most two listed failures per identity (the list is bounded)
+                let mut rep = rep.clone();
+                rep.fails.retain(|f| {
+                    let n = seen.entry(f.1.clone()).or_insert(0);
+                    *n += 1;
+                    if *n > 2 {
+                        out.count("oracle_failures");
+                        out.count("oracle_failures_not_listed");
+                    }
+                    *n <= 2
+                });
+                rep.emit(&mut out)
+            }
+            died => {
+                let (line, mut ident) = died_ident(died);
+                let stderr = if let CaseOutcome::Died { stderr, .. } = died { stderr.chars().take(600).collect::<String>() } else { String::new() };
+                // regenerate the description the dead worker was running, so the case can be replayed
+                let op = match specs[c].strip_prefix("gen ") {
+                    Some(rest) => {
+                        let mut it = rest.split_whitespace();
+                        let id: u64 = it.next().and_then(|x| x.parse().ok()).unwrap_or(0);
+                        let seed: u64 = it.next().and_then(|x| x.parse().ok()).unwrap_or(1);
+                        let p = gen_plan(&mut Rng::new(seed), id);
+                        if p.label.contains("shared-net-second") {
+                            ident = "shared-network-listed-second not-delivered".into();
+                        }
+                        format!("{} {}", if p.label.contains("shared-net-second") || p.label.contains("same-kind-twice") { "run-known" } else { "run" }, p.tree.tokens(false))
+                    }
+                    None => specs[c].trim_start_matches("replay ").to_string(),
+                };
+                out.line(&op, &line);
+                out.count("died");
+                out.fail(&format!("building or running a valid description crashed the process: {} ; spec `{}` ; stderr: {}", ident, specs[c], stderr), &ident);
+            }
+        }
+        out.end_case();
+    }
+    out.finish(RULE_RUN);
 }
